@@ -1,3 +1,6 @@
+import Varint.Lemmas.Dict
+import Varint.Lemmas.RLEH
+import Varint.Lemmas.Group
 import Varint.Lemmas.FOR
 import Varint.Lemmas.RLE
 import Varint.Props.C14
@@ -90,6 +93,40 @@ theorem rle_decAux_length (fuel room : Nat) (bs vs : List Nat) (h : RLE.decAux f
 /-- run-length (headerless), any bytes: at most `cap` values are stored -/
 theorem rle_trace_lt_cap (bs : List Nat) (cap : Nat) (vs : List Nat) (h : RLE.dec bs cap = some vs) :
     vs.length ≤ cap := rle_decAux_length _ _ _ _ h
+
+
+/-- group, any bytes: at most `maxFields` (and never more than 64) values are stored -/
+theorem group_trace_lt_cap (bs : List Nat) (cap : Nat) (vs : List Nat) (n : Nat)
+    (h : Group.dec bs cap = some (some (vs, n))) : vs.length ≤ cap ∧ vs.length ≤ 64 :=
+  Group.dec_length_le_cap bs cap vs n h
+
+/-- group: a capacity below the field count is the documented failure -/
+theorem group_small_cap_fails (xs : List Nat) (h : Group.Ok xs) (cap : Nat) (hcap : cap < xs.length) (rest : List Nat) :
+    Group.dec (Group.enc xs ++ rest) cap = some none :=
+  Group.dec_enc_small xs h cap hcap rest
+
+/-- run-length with header, any bytes: at most `cap` values -/
+theorem rleh_trace_lt_cap (bs : List Nat) (cap : Nat) (vs : List Nat)
+    (h : RLE.decH bs cap = some (some vs)) : vs.length ≤ cap :=
+  RLE.decH_length_le_cap bs cap vs h
+
+/-- run-length with header: a count above the capacity is the documented failure;
+    headerless: a smaller capacity yields the correct prefix -/
+theorem rle_prefix_or_fail (xs : List Nat) (hx : ∀ x ∈ xs, x < 2 ^ 64) (hn : xs.length < 2 ^ 64) (cap : Nat) (rest : List Nat) :
+    (cap < xs.length → RLE.decH (RLE.encH xs ++ rest) cap = some none) ∧
+    (cap ≤ xs.length → RLE.dec (RLE.enc xs ++ rest) cap = some (xs.take cap)) :=
+  ⟨fun hc => RLE.decH_encH_small xs hn cap hc rest, fun hc => RLE.dec_enc_prefix xs hx hn cap hc rest⟩
+
+
+/-- dictionary DecodeInto on the codec-level model, any bytes: at most `maxValues`; and a capacity below
+    the stored count is the documented failure -/
+theorem dict_dec_trace_lt_cap (bs : List Nat) (c : Nat) (vs : List Nat) (h : Dict.dec bs (some c) = some vs) :
+    vs.length ≤ c := Dict.dec_length_le_cap bs c vs h
+
+theorem dict_small_cap_fails (xs : List Nat) (hx : ∀ x ∈ xs, x < 2 ^ 64) (hn : xs.length < 2 ^ 64)
+    (h : Dict.enc xs ≠ []) (rest : List Nat) (cap : Nat) (hc : cap < xs.length) :
+    Dict.dec (Dict.enc xs ++ rest) (some cap) = none :=
+  Dict.dec_enc_small_cap xs hx hn h rest cap hc
 
 /-- dictionary (DecodeInto), any bytes: at most `maxValues` values are stored (shared with C14) -/
 theorem dict_trace_lt_cap (bs : List Nat) (c : Nat) (vs : List Nat)
